@@ -170,6 +170,18 @@ def e_est(c):
     cost = lambda r: hard_f(r, d, s0, s1, M)  # noqa: E731
     check(cost(thp - mu0) <= max(cost(max(0, rs_ - step)), cost(min(d, rs_ + step))) * (1 + 1e-9) + 1e-300, "ppm-threshold-not-minimiser", f"{thp - mu0} vs {rs_}")
     raises(ValueError, PPM.THRESHOLD_EST, ey, 6, tag="ppm-threshold-bad-M-accepted")
+    # the estimators read the eye's CURRENT statistics: the same eye object updated in place (a receiver re-measuring its eye)
+    ey.mu0, ey.mu1, ey.s0, ey.s1 = 3 * mu0 + beta + d, 3 * mu1 + beta + d, 3 * s1, 3 * s0
+    fresh = eye(mu0=ey.mu0, mu1=ey.mu1, s0=ey.s0, s1=ey.s1)
+    for nm, fn, a in (("ook.THRESHOLD_EST", OOK.THRESHOLD_EST, ()), ("ppm.THRESHOLD_EST", PPM.THRESHOLD_EST, (M,))):
+        t_upd, t_new = float(lib(fn, ey, *a)), float(lib(fn, fresh, *a))
+        check(t_upd == t_new, "estimator-uses-stale-eye", f"{nm}: {t_upd} for the updated eye object, {t_new} for a new object with the same statistics")
+        check(ey.mu0 - 1e-12 * abs(ey.mu0) <= t_upd <= ey.mu1 + 1e-12 * abs(ey.mu1), "threshold-outside-[mu0,mu1]", f"{nm}: {t_upd} for [{ey.mu0}, {ey.mu1}] (eye updated in place)")
+    for dec in ("hard", "soft"):
+        b_upd = float(lib(PPM.BER_analizer, "estimator", eye_obj=ey, M=M, decision=dec))
+        b_new = float(lib(PPM.BER_analizer, "estimator", eye_obj=fresh, M=M, decision=dec))
+        check(b_upd == b_new, "estimator-uses-stale-eye", f"ppm.BER_analizer({dec}): {b_upd} vs {b_new}")
+    check(float(lib(OOK.BER_analizer, "estimator", eye_obj=ey)) == float(lib(OOK.BER_analizer, "estimator", eye_obj=fresh)), "estimator-uses-stale-eye", "ook.BER_analizer")
     # optimum_threshold: MAP crossing of the two weighted Gaussians
     S0, S1 = s0 ** 2, s1 ** 2
     crossing = []
@@ -224,7 +236,7 @@ def s_rx(draw):
             "BW_el": BW_el, "bwr": draw(st.floats(1.01, 100)), "r": draw(st.floats(0.05, 1)), "R_L": 10 ** draw(st.floats(1, 4)),
             "T": draw(st.one_of(st.just(0.0), st.floats(1, 400))), "NF_el": draw(st.one_of(st.just(0.0), st.floats(0, 10))),
             "wl": draw(st.floats(1260e-9, 1650e-9)), "Q": draw(st.floats(0.5, 7)), "thr": draw(st.one_of(st.none(), st.floats(0.05, 0.95))),
-            "raw_P": draw(st.lists(st.floats(-50, 0), min_size=2, max_size=4)), "omit_neutral": draw(st.booleans())}
+            "raw_P": draw(st.lists(st.floats(-50, 0), min_size=2, max_size=4)), "omit_neutral": draw(st.booleans()), "ook_M": draw(st.booleans())}
 
 
 def e_rx(c):
@@ -232,7 +244,8 @@ def e_rx(c):
     amplify, ER = c["amplify"], c["ER"]
     if c["T"] < 1 and np.isinf(ER):
         ER = 20.0          # otherwise the OFF level is noise-free (sigma_0 = 0), outside "s0, s1 > 0"
-    kw = dict(M=(None if mod == "ook" else M), ER=ER, amplify=amplify, G=c["G"], NF=c["NF"], BW_opt=c["BW_el"] * c["bwr"], r=c["r"], R_L=c["R_L"])
+    # (an order passed along with modulation='ook' - one kwargs dict shared by OOK and PPM sweeps - is ignored by every function alike)
+    kw = dict(M=((c["M"] if c.get("ook_M") else None) if mod == "ook" else M), ER=ER, amplify=amplify, G=c["G"], NF=c["NF"], BW_opt=c["BW_el"] * c["bwr"], r=c["r"], R_L=c["R_L"])
     args = dict(wavelength=c["wl"], BW_el=c["BW_el"], T=c["T"], NF_el=c["NF_el"])
     if not amplify and c["omit_neutral"]:
         kw.update(G=None, NF=None, BW_opt=None)     # documented: "only used if amplify=True"
@@ -305,7 +318,8 @@ def e_rx(c):
     frac = [parts[1][1] / S[1], parts[2][1] / S[1], parts[3] / S[1]]
     nt = max(frac) >= 0.1
     return {"nontrivial": bool(nt), "classes": [mod, "amp" if amplify else "unamp", f"M{M}", dec if mod == "ppm" else "-", "thermal-dominated" if not nt else "shot/beat>=10%",
-                                                 "ERinf" if np.isinf(ER) else "ERfinite", "T0" if c["T"] == 0 else "T>0", "omit" if (not amplify and c["omit_neutral"]) else "explicit"]}
+                                                 "ERinf" if np.isinf(ER) else "ERfinite", "T0" if c["T"] == 0 else "T>0", "omit" if (not amplify and c["omit_neutral"]) else "explicit",
+                                                 "ook-with-M" if mod == "ook" and c.get("ook_M") and c["M"] != 2 else "-"]}
 
 
 # --------------------------------------------------------------------------------------------------
